@@ -16,6 +16,7 @@ import DuneVerif.Proofs.C10Mul
 import DuneVerif.Proofs.C10Div
 import DuneVerif.Proofs.C10Conv
 import DuneVerif.Proofs.C10Prog
+import DuneVerif.Proofs.C10Hist
 
 namespace DV.C10
 open DV.C10.Gen
@@ -110,7 +111,7 @@ example : Wf (ndigits 24) [0xffff, 0xffff] ∧ mul 24 [0xffff, 0xffff] [0xffff, 
 
 /-! ## division and remainder -/
 
-/-- `operator/=` with a non-zero divisor returns the exact quotient; the fuel `val a + 1` of the model's
+/-- `operator/=` with a non-zero divisor returns the exact quotient; the fuel `val a / val x + 1` of the model's
     repeated-subtraction loop is never exhausted (`divLoop_fuel_irrelevant`). -/
 theorem div_val {n : Nat} {a x : List Nat} (ha : Wf n a) (hx : Wf n x) (h : val x ≠ 0) :
     ∃ q, div a x = .ok q ∧ Wf n q ∧ val q = val a / val x := div_spec ha hx h
@@ -131,11 +132,16 @@ theorem mod_zero_reported {n : Nat} {a x : List Nat} (hx : Wf n x) (h : val x = 
 example : Wf 2 [0, 0] ∧ val [0, 0] = 0 ∧ div [5, 0] [0, 0] = .mathError ∧ mod [5, 0] [0, 0] = .mathError := by
   decide
 
-/-- termination of `while (*this >= x)`: any fuel above `val a` gives the same result, i.e. the loop has left
-    through its exit test; with remainder `< val x` (from `mod_val`). -/
+/-- termination of `while (*this >= x)`: any fuel above the quotient `val a / val x` gives the same result, i.e. the
+    loop has left through its exit test after exactly quotient rounds; with remainder `< val x` (from `mod_val`).
+    (Round four: strengthened from "fuel above `val a`"; the model's `div`/`mod` now pass `val a / val x + 1`.) -/
 theorem divLoop_fuel_irrelevant {n : Nat} {a x r : List Nat} (ha : Wf n a) (hx : Wf n x) (hr : Wf n r)
-    (hpos : 0 < val x) {f1 f2 : Nat} (h1 : val a < f1) (h2 : val a < f2) :
+    (hpos : 0 < val x) {f1 f2 : Nat} (h1 : val a / val x < f1) (h2 : val a / val x < f2) :
     divLoop f1 a x r = divLoop f2 a x r := divLoop_fuel ha hx hr hpos h1 h2
+
+example : Wf 2 [0x0003, 0x0001] ∧ Wf 2 [0x8000, 0] ∧ Wf 2 [0, 0] ∧ 0 < val [0x8000, 0] ∧
+    val [0x0003, 0x0001] / val [0x8000, 0] < 3 ∧
+    divLoop 3 [0x0003, 0x0001] [0x8000, 0] [0, 0] = ([2, 0], [3, 0]) := by decide
 
 /-! ## bitwise operations -/
 
@@ -495,5 +501,97 @@ theorem div_mod_self {n : Nat} {a : List Nat} (ha : Wf n a) :
 
 example : Wf 2 [7, 0] ∧ val [7, 0] ≠ 0 ∧ div [7, 0] [7, 0] = .ok [1, 0] ∧ mod [7, 0] [7, 0] = .ok [0, 0] := by
   decide
+
+/-! ## round four: straight-line code regenerated from the header (operator tables, derived comparisons, the rest of
+    numeric_limits), built-in operands of every integral type, and histories with observations
+
+`gt_iff`, `ge_iff`, `eq_iff` above are now statements about the *generated* definitions `gtDef`, `geDef`, `eqDef`
+(how the header derives `>`, `>=`, `==` from `<=`, `<`, `!=`): `gt a x = evalCmpDef gtDef a x`. -/
+
+/-- the twenty free mixed operators (`big OP uintmax_t`, `uintmax_t OP big`, and the same for every signed built-in
+    type), as parsed from their bodies (`mixedOk`): for each of `+ - * / %`, each side and each signedness the body applies
+    that very operator to the operands in the order of the call (after converting the built-in operand) — for the
+    commutative `+` and `*` the mirrored order is admitted too, so that an overload may forward to its mirror image —
+    and there is no mixed overload of a bitwise operator -/
+theorem mixed_table_spec (s bl : Bool) (o : BinOp) : mixedOk s bl o = true := mixedOk_all s bl o
+
+example : mixedBody true false .sub = some ⟨.sub, false⟩ ∧ mixedBody false true .band = none ∧
+    mixedOk true false .sub = true := by decide
+
+/-- every binary operator of the class (`+ - * / % & ^ |`) is defined by `DUNE_BINOP` as copy-then-compound-operator,
+    so the statement forms `d op= s` of the histories cover the binary operators too -/
+theorem binop_list_spec (o : BinOp) : o ∈ binopViaCompound := binop_all o
+
+/-- the remaining `numeric_limits` members describe an integer type: specialised, all four exponents 0, no infinity,
+    NaN, denormal loss, IEC 559 arithmetic, traps or tinyness detection -/
+theorem limits_rest_spec :
+    limitsIsSpecialized = true ∧ limitsExponents = [0, 0, 0, 0] ∧ limitsHasInfinity = false ∧
+    limitsHasQuietNaN = false ∧ limitsHasSignalingNaN = false ∧ limitsHasDenormLoss = false ∧
+    limitsIsIec559 = false ∧ limitsTraps = false ∧ limitsTinynessBefore = false := by decide
+
+/-- a negative built-in operand is rejected wherever it meets a bigunsignedint — in all ten signed mixed operators,
+    in the eight compound operators and in the six comparisons — and the variables are left untouched -/
+theorem negative_builtin_rejected (k : Nat) (r : Regs) (t : IntTy) (y : Int) (hb : builtinOk t y = true)
+    (hneg : y < 0) (o : BinOp) (d : Reg) (bl : Bool) (c : Cmp) :
+    t.signed = true ∧
+    (isArith o = true → step4 k r (.mixed o d t y bl) = some (r, .negative)) ∧
+    step4 k r (.compound o d t y) = some (r, .negative) ∧
+    step4 k r (.cmpB c d t y) = some (r, .negative) := by
+  have hc : construct (ndigits k) t y = .negative := by
+    rcases construct_cases (n := ndigits k) hb with ⟨_, h⟩ | ⟨h, _⟩
+    · exact h
+    · omega
+  refine ⟨(builtin_bounds hb).2 hneg, fun ha => ?_, ?_, ?_⟩
+  · have hok := mixedOk_all t.signed bl o
+    unfold mixedOk at hok
+    cases hm : mixedBody t.signed bl o with
+    | none => rw [hm] at hok; simp [ha] at hok
+    | some b => simp [step4, Stmt.valid, hb, hm, hc]
+  · simp [step4, Stmt.valid, hb, hc]
+  · simp [step4, Stmt.valid, hb, hc]
+
+example : builtinOk ⟨true, 8⟩ (-128) = true ∧ isArith .mod = true ∧
+    step4 24 ⟨[1, 2], [3, 4]⟩ (.mixed .mod .a ⟨true, 8⟩ (-128) false) = some (⟨[1, 2], [3, 4]⟩, .negative) := by decide
+
+/-- ALL HISTORIES, round four.  For every width `k`, every pair of well-formed start values and every program of
+    statements — the round-two statements, `d = d OP y` / `d = y OP d` through the regenerated table of the mixed
+    operators with a built-in `y` of any integral type of at most 64 bits, `d OP= y` through the implicit
+    constructor, the six comparisons between variables (or a variable and itself) and with a built-in, `touint()` —
+    the digit-loop model produces, statement by statement, exactly the observations (value, zero divisor reported,
+    negative operand rejected, boolean, number) and the final state of the machine computing with natural numbers
+    modulo `2^(bits·n)`; both reject the same protocol-invalid programs; the variables stay well-formed. -/
+theorem hist_refines {k : Nat} (p : List Stmt) (r : Regs) (hr : WfRegs (ndigits k) r) :
+    (run4 k r p).map (fun q => (q.1.map Obs.abs, q.2.abs)) = specRun4 (ndigits k) r.abs p ∧
+    ∀ os r', run4 k r p = some (os, r') → WfRegs (ndigits k) r' := run4_refines p r hr
+
+-- b = 0x3000 - b; a = a + (signed char)(-1) (rejected); a &= 0xff00; a > b; b == 0x2ffbll; a < (short)(-5) (rejected);
+-- a.touint(); a /= b   with k = 40 (three digits)
+set_option maxRecDepth 2000 in
+example : WfRegs (ndigits 40) ⟨[0xffff, 0x7fff, 1], [5, 0, 0]⟩ ∧
+    run4 40 ⟨[0xffff, 0x7fff, 1], [5, 0, 0]⟩
+      [.mixed .sub .b ⟨true, 32⟩ 0x3000 false, .mixed .add .a ⟨true, 8⟩ (-1) true, .compound .band .a ⟨false, 16⟩ 0xff00,
+       .cmp .gt .a .b, .cmpB .eq .b ⟨true, 64⟩ 0x2ffb, .cmpB .lt .a ⟨true, 16⟩ (-5), .touint .a,
+       .old (.bin .div .a .b)] =
+    some ([.val [0x2ffb, 0, 0], .negative, .val [0xff00, 0, 0], .bool true, .bool true, .negative, .num 0xff00,
+           .val [5, 0, 0]], ⟨[5, 0, 0], [0x2ffb, 0, 0]⟩) := by decide
+
+/-- the six comparisons inside histories: whatever the history did before, `x CMP y` (also `x CMP x`) decides the
+    order of the values -/
+theorem cmp_spec {n : Nat} {a x : List Nat} (ha : Wf n a) (hx : Wf n x) (c : Cmp) :
+    cmpEval c a x = cmpSpec c (val a) (val x) := cmpEval_spec ha hx c
+
+example : Wf 2 [0xffff, 1] ∧ cmpEval .ge [0xffff, 1] [0xffff, 1] = true ∧ cmpEval .gt [0xffff, 1] [0xffff, 1] = false := by
+  decide
+
+/-- `MPITraits<bigunsignedint<k>>` (dune/common/parallel/mpitraits.hh, regenerated): the MPI datatype is one block, placed
+    at the member `digit`, of `n` contiguous elements whose width is the digit width — it transports exactly the
+    `numeric_limits::digits` bits of the value, for every k -/
+theorem mpi_type_spec (k : Nat) :
+    mpiBlocks * mpiCount k * mpiElemBits = limitsDigits k ∧ mpiElemBits = bits ∧ mpiCount k = ndigits k := by
+  refine ⟨?_, rfl, rfl⟩
+  simp only [mpiBlocks, mpiCount, mpiElemBits, limitsDigits, bits]
+  omega
+
+example : mpiCount 100 = 7 ∧ mpiBlocks * mpiCount 100 * mpiElemBits = 112 := by decide
 
 end DV.C10
